@@ -54,7 +54,7 @@ theorem balancer_swap_in_contract_equal_weights {p : BalPool} {dIn dOut : String
     (hw : aIn.weight = aOut.weight) (hw0 : 0 < aIn.weight) (hR : 0 < aOut.amount) : t < aOut.amount :=
   balCalcOut_lt_reserve_equal_weights h hi ho hw hw0 hR
 
-theorem pow_exponent_one {y : Int} (h0 : 0 < y) (h2 : y < 2 * P18) : pow y P18 = some y := pow_exp_one h0 h2
+theorem pow_exponent_one {y : Int} (h0 : 0 < y) (h2 : y < 2 * P18) : pow y P18 = some y := pow_one_exp h0 h2
 
 /-- FULL (F13 at the keeper). A `SwapOutAmtGivenIn` call of the keeper on a balancer record (distinct names, positive
 reserves, `dout` a pool asset) whose op-line result `out` is Model/Gamm's: `0 < out ≤ reserve`, and it is the ENTIRE
